@@ -8,7 +8,7 @@ use std::collections::{BTreeMap, BTreeSet};
 use std::path::Path;
 use txtpp::{Config, Mode, Verbosity};
 
-pub const NAMES: [&str; 4] = ["a", "b", "c", "d"];
+pub const NAMES: [&str; 5] = ["a", "b", "c", "d", "e"];
 
 #[derive(Clone, Copy, PartialEq, Eq, Hash, PartialOrd, Ord, Debug)]
 pub struct Graph {
@@ -110,6 +110,23 @@ pub fn all_graphs(n: usize) -> Vec<Graph> {
 
 pub fn iso_classes(n: usize) -> Vec<Graph> {
     all_graphs(n).into_iter().filter(|g| g.canonical() == g.adj).collect()
+}
+
+/// one representative per isomorphism class of DAGs on n files (every DAG has a topological order, so
+/// enumerating edges i -> j with i < j reaches every class)
+pub fn dag_classes(n: usize) -> Vec<Graph> {
+    let pairs: Vec<(usize, usize)> = (0..n).flat_map(|i| ((i + 1)..n).map(move |j| (i, j))).collect();
+    let mut seen = BTreeSet::new();
+    let mut out = vec![];
+    for m in 0..(1u32 << pairs.len()) {
+        let edges: Vec<(usize, usize)> = pairs.iter().enumerate().filter(|(k, _)| m >> k & 1 == 1).map(|(_, e)| *e).collect();
+        let g = Graph::from_edges(n, &edges);
+        let c = g.canonical();
+        if seen.insert(c) {
+            out.push(Graph { n, adj: c });
+        }
+    }
+    out
 }
 
 pub fn named_4() -> Vec<(&'static str, Graph)> {
@@ -709,6 +726,15 @@ pub fn plan(prop: &str, thorough: bool) -> Vec<Case> {
                     cases.extend(sel_cases(&proj, &[Pre::Stale], &[Mode::Build], !thorough));
                 }
             }
+            if thorough {
+                // five files: every isomorphism class of DAGs, directory input and the first file by name
+                for g in dag_classes(5) {
+                    let proj = Proj { g, style: Style::Include };
+                    let mut cs = sel_cases(&proj, &[Pre::Stale], &[Mode::Build], true);
+                    cs.retain(|c| c.inputs.len() == 1);
+                    cases.extend(cs);
+                }
+            }
         }
         "C03" => {
             for g in graphs.iter() {
@@ -780,7 +806,7 @@ pub fn run_property(prop: &str, tier: &str) -> i32 {
     rep.set(
         "bounds",
         json!(if thorough {
-            "all labelled digraphs with loops on 1-3 files; one representative per isomorphism class on 4 files; all task completion orders"
+            if prop == "C02" { "all labelled DAGs on 1-3 files; one representative per isomorphism class of DAGs on 4 and on 5 files (5: directory input and single-file inputs); all task completion orders" } else { "all labelled digraphs with loops on 1-3 files; one representative per isomorphism class on 4 files; all task completion orders" }
         } else {
             "isomorphism classes on 1-3 files; six named 4-file graphs; all task completion orders"
         }),
